@@ -231,6 +231,31 @@ func c20Worker(w, par int, bs []dBehaviour, sym *dirSym, parts [][]dEvent) error
 				time.Sleep(50 * time.Microsecond)
 			}
 		}()
+		// ... and another client keeps searching users and groups while the behaviours add / modify / delete them
+		go func() {
+			bc, err := dial()
+			if err != nil {
+				return
+			}
+			defer bc.Close()
+			bg := &dirClient{c: bc, msgid: 900000}
+			r2 := sym.rev()
+			for {
+				select {
+				case <-stopChurn:
+					return
+				default:
+				}
+				for _, dn := range []string{"u1", "n1"} {
+					if _, _, err := bg.search(userBase, sym.c(dn), r2); err != nil {
+						return
+					}
+				}
+				if _, _, err := bg.search(groupBase, sym.c("g1"), r2); err != nil {
+					return
+				}
+			}
+		}()
 	}
 	rev := sym.rev()
 	initUsers := []dEntry{{DN: "u1", Attrs: []dAttr{{"a1", []string{"v1"}}, {"a2", []string{"v2"}}, {"password", []string{"p"}}}}, {DN: "u2", Attrs: []dAttr{{"a1", []string{"v1"}}}}}
